@@ -148,7 +148,6 @@ _A_GROUPS = {
         ("lin3/p2", ("linear", 3), (1, 2), (PB1, PB2), True, 2, 8, True, "repeat"),
         ("lin3/p3b1", ("linear", 3), (3,), (PB1,), True, 3, 24, False, "single"),
         ("lin3/p3b2", ("linear", 3), (3,), (PB2,), True, 0, 48, False, "single"),
-        ("lin3full/p3b2", ("linear-full", 3), (3,), (PB2,), True, 1, 16, False, "single"),
         ("merge3/p3b1", ("merge", 3), (3,), (PB1,), False, 0, 16, False, "single"),
         ("lin4full/p3", ("linear-full", 4), (3,), (PB1,), True, 0, 8, False, "single"),
         ("merge3/p2", ("merge", 3), (1, 2), (PB1, PB2), True, 1, 32, False, "single"),
